@@ -12,38 +12,46 @@ EXTENDS AllocCheck, Json, IOUtils
 Input == JsonDeserialize(IOEnv.TRACE_FILE)
 NCases == Len(Input.cases)
 Ovs  == Mk([a \in 1..Len(Input.archs) |-> OvOf(Input.archs[a])])
-Tabs == Mk([k \in 1..NCases |-> Build(Input.cases[k], Ovs[Input.cases[k].arch])])
 NChunks == 16
 
-VARIABLES chunk, f, pc, cur, holds
-vars == <<chunk, f, pc, cur, holds>>
+(* `tab' holds the tables of the case under exploration (AllocCheck!Build): built once, by the worker  *)
+(* that enters the case, constant afterwards.  It is a function of f, so the cfg hides it from the     *)
+(* fingerprint (VIEW View) and from error traces (ALIAS Shown).                                        *)
+VARIABLES chunk, f, pc, cur, holds, tab
+vars == <<chunk, f, pc, cur, holds, tab>>
+View == <<chunk, f, pc, cur, holds>>
+Shown == [chunk |-> chunk, f |-> f, pc |-> pc, cur |-> cur, holds |-> holds]
 Empty == [r \in {} |-> 0]
+NoTab == [n |-> 0]
 
-Init == chunk = 0 /\ f = 0 /\ pc = 0 /\ cur = Empty /\ holds = Empty
-PickChunk == /\ chunk = 0 /\ chunk' \in 1..NChunks /\ UNCHANGED <<f, pc, cur, holds>>
+Init == chunk = 0 /\ f = 0 /\ pc = 0 /\ cur = Empty /\ holds = Empty /\ tab = NoTab
+PickChunk == /\ chunk = 0 /\ chunk' \in 1..NChunks /\ UNCHANGED <<f, pc, cur, holds, tab>>
 PickCase  == /\ chunk > 0 /\ f = 0
              /\ f' \in {k \in 1..NCases : k % NChunks = chunk - 1}
+             /\ tab' = Build(Input.cases[f'], Ovs[Input.cases[f'].arch])
              /\ pc' = 1 /\ UNCHANGED <<chunk, cur, holds>>
 
-P == Tabs[f]
+P == tab
 At == P.T[pc]
 Running == f > 0 /\ pc >= 1 /\ pc <= P.n
+\* a path is followed only as long as the property holds on it: one report per failing path prefix
+Healthy == /\ ReadsOK(P, pc, cur, holds) /\ NoShare(P, cur) /\ RemovedOK(P, pc) /\ InsertedOK(P, pc)
 
 \* an instruction of both programs: reads are checked (invariant), definitions take effect
-Exec == /\ Running /\ At.kind = "both"
+Exec == /\ Running /\ Healthy /\ At.kind = "both"
         /\ \E j \in At.succ : \E s \in {ExecTo(P, pc, j, cur, holds)} :
               pc' = j /\ cur' = s.cur /\ holds' = s.holds
-        /\ UNCHANGED <<chunk, f>>
+        /\ UNCHANGED <<chunk, f, tab>>
 \* a coalesced move deleted by remove_redundant_moves: only the ground truth moves on
-RemovedMove == /\ Running /\ At.kind = "spec"
+RemovedMove == /\ Running /\ Healthy /\ At.kind = "spec"
                /\ \E j \in At.succ : \E s \in {RemovedTo(P, pc, j, cur, holds)} :
                      pc' = j /\ cur' = s.cur /\ holds' = s.holds
-               /\ UNCHANGED <<chunk, f>>
+               /\ UNCHANGED <<chunk, f, tab>>
 \* spill code inserted by rewrite_program: one load / store block, atomically
-SpillBlock == /\ Running /\ At.kind = "impl" /\ At.blk # 0
+SpillBlock == /\ Running /\ Healthy /\ At.kind = "impl" /\ At.blk # 0
               /\ \E s \in {BlockTo(P, pc, cur, holds)} :
                     pc' = pc + At.blkLen /\ cur' = s.cur /\ holds' = s.holds
-              /\ UNCHANGED <<chunk, f>>
+              /\ UNCHANGED <<chunk, f, tab>>
 Next == PickChunk \/ PickCase \/ Exec \/ RemovedMove \/ SpillBlock
 
 \* ---- the property ----
